@@ -94,7 +94,7 @@ Print Assumptions C05_listed_present_refuted.
 (* the guard is satisfiable by a non-trivial run (auto-packing committer that has to reload
    because a concurrent packer moved its source packs away) *)
 Example C05_guarded_nontrivial :
-  let st := run step ([0;0;0;0] ++ repeat 1 12 ++ repeat 0 14) (init_sys witness_base [RCommit [10]; RPack]) in
+  let st := run step ([0;0;0;0] ++ repeat 1 14 ++ repeat 0 14) (init_sys witness_base [RCommit [10]; RPack]) in
   collided (sh st) = false /\ pc (procs st 0) = PDone /\ pc (procs st 1) = PDone /\
   reloads (procs st 0) = 1 /\ committed (sh st) = [0;1;2;3;4;5;6;7;8;10] /\
   map revs (disk (sh st)) = [[0;1;2;3;4;5;6;7;8;10]].
